@@ -185,7 +185,7 @@ func genCase(rng *rand.Rand, n int, seed int64, pf Profile) *CaseDesc {
 				p.Memoize = true
 				p.Cacheable = true
 			}
-			if chance(rng, 0.03) {
+			if chance(rng, 0.03) || (p.Cacheable && chance(rng, 0.12)) {
 				p.NotCacheable = true
 			}
 			if chance(rng, pf.PFallible) {
@@ -381,6 +381,16 @@ func genEditCase(rng *rand.Rand, n int, seed int64) *CaseDesc {
 			p.NonFinal = true
 		}
 		c.Provs = append(c.Provs, p)
+	}
+	if chance(rng, 0.25) && L >= 3 {
+		// a run of NonFinal providers listed after the one that becomes final
+		k := 1 + rng.Intn(L-1)
+		for i := k; i < L; i++ {
+			c.Provs[i].NonFinal = true
+		}
+		if chance(rng, 0.3) {
+			c.Provs[rng.Intn(k)].NonFinal = true
+		}
 	}
 	// make runs of equal directives / equal names more likely (blocks)
 	for i := 1; i < L; i++ {
